@@ -48,9 +48,13 @@ def gen_case(rng):
             exprs.append([iv, off, [rng.choice(syms)]])
         else:
             exprs.append([iv, off, [rng.choice(syms), rng.choice(syms)]])
-    ver_ids = [2, 3, 4, 5, 6]
+    # version ids are just numbers: in most modules the base definition has id 1, in some the ids start elsewhere and
+    # 0 / 1 are ordinary (non-base) definitions or requirements
+    shift = rng.choice([0, 0, 0, -1, -2, 5])
+    base_id = 1 if shift >= 0 else 7
+    ver_ids = [i + shift for i in [2, 3, 4, 5, 6]]
     entries = [[s, rng.choice(ver_ids)] for s in some(0.6)] if ff == "ELF" else []
-    defs = [[1, rng.choice([1, 3])]] + [[i, rng.choice([0, 0, 2])] for i in ver_ids if rng.random() < 0.4]
+    defs = [[base_id, rng.choice([1, 3])]] + [[i, rng.choice([0, 0, 2])] for i in ver_ids if rng.random() < 0.4]
     reqs = []
     left = [i for i in ver_ids if i not in [d[0] for d in defs]]
     for lib in ["libc.so.6", "libm.so.6", "libx.so"]:
